@@ -56,18 +56,18 @@ def oracle_hits(cases):
                         viol.append({'signature': 'oracle:hit-ran-user-functions', 'case': histcorr._slim(c), 'observed': [x[0] for x in ob['log']],
                                      'what': f'history {i}: repeating {op} through a {lc["t"]} cache ran {[x[0] for x in ob["log"]]}'})
                         break
-                if lc['t'] == 'ram' and lc.get('size') is not None and len(fields) == 1:
-                    key = (op['variant'], builds[op['variant']], fields[0])
-                    rec = recency.get(key, [])
+                if lc['t'] == 'ram' and lc.get('size') is not None:
                     kk = repr(op['key'])
-                    if kk in rec[:lc['size']] and ok_res:
-                        n += 1
-                        if ob['log']:
-                            viol.append({'signature': 'oracle:lru-recency', 'case': histcorr._slim(c), 'observed': [x[0] for x in ob['log']],
-                                         'what': f'history {i}: {op}: the key is among the {lc["size"]} most recently used ones but the call ran user functions'})
-                            break
-                    if ok_res:
-                        recency[key] = [kk] + [x for x in rec if x != kk]
+                    for f in fields:
+                        key = (op['variant'], builds[op['variant']], f)
+                        rec = recency.get(key, [])
+                        if len(fields) == 1 and kk in rec[:lc['size']] and ok_res:
+                            n += 1
+                            if ob['log']:
+                                viol.append({'signature': 'oracle:lru-recency', 'case': histcorr._slim(c), 'observed': [x[0] for x in ob['log']],
+                                             'what': f'history {i}: {op}: the key is among the {lc["size"]} most recently used ones but the call ran user functions'})
+                        if ok_res:
+                            recency[key] = [kk] + [x for x in rec if x != kk]
             prev = ((op['variant'], op['fields'], repr(op['key'])), ok_res)
     return viol, n
 
